@@ -500,12 +500,30 @@ def check_L30(ctx, rep):
 
     def outermost_source(tree, root_ids):
         best = None
+        # `let elems = &self.elem_ids;` : an alias of a field of the structure
+        alias = {}
+        for n, _ in walk(tree):
+            if n.get('k') == 'let' and 'i' in n and n['p'].get('k') == 'bind':
+                i = strip(n['i'])
+                while i.get('k') in ('addr',) or (i.get('k') == 'unary' and i.get('op') == 'deref'):
+                    i = strip(i['e'])
+                if i.get('k') == 'field':
+                    base = strip(i['e'])
+                    while base.get('k') in ('addr',) or (base.get('k') == 'unary' and base.get('op') == 'deref'):
+                        base = strip(base['e'])
+                    if base.get('k') == 'path' and base.get('res') == 'local' and base['id'] in root_ids:
+                        alias[n['p']['id']] = i['n']
         for n, parents in walk(tree):
             if n.get('k') != 'mcall' or n['m'] not in _ITER_METHODS:
                 continue
             r = strip(n['r'])
             while r.get('k') in ('addr', 'index') or (r.get('k') == 'unary' and r.get('op') == 'deref'):
                 r = strip(r['e'])
+            if r.get('k') == 'path' and r.get('res') == 'local' and r['id'] in alias:
+                d = len(parents)
+                if best is None or d < best[0]:
+                    best = (d, alias[r['id']], n)
+                continue
             if r.get('k') != 'field':
                 continue
             base = strip(r['e'])
